@@ -89,7 +89,10 @@ def main():
     for kind in ("PJ", "AT", "TB"):
         for man in ("sphere", "torus", "plane", "circle", "smallsphere"):
             for (delta, lam, tol) in ([(0.05, 2.0, 1e-4)] if quick else [(0.05, 2.0, 1e-4), (0.2, 1.5, 1e-3), (0.02, 3.0, 1e-6)]):
-                laws.append("LAWS %s %s %d %d %g %g %g" % (kind, man, n, rng.randint(1, 10 ** 6), delta, lam, tol))
+                # the atlas of the one-dimensional manifold keeps every chart it ever made (memory grows faster than quadratically
+                # in the number of samples at small delta: 5.7 GB for 400), so that one combination is searched with fewer samples
+                nn = min(n, 150) if (man == "circle" and kind != "PJ" and delta < 0.05) else n
+                laws.append("LAWS %s %s %d %d %g %g %g" % (kind, man, nn, rng.randint(1, 10 ** 6), delta, lam, tol))
     # arcs of every length with step budgets lambda close to 1 (the budget runs out near the end of the traversal)
     for kind in ("PJ", "AT"):
         for lam in ([1.05, 1.2, 1.5] if quick else [1.02, 1.05, 1.1, 1.2, 1.35, 1.5]):
